@@ -29,7 +29,7 @@ CHECKS = {
          "DESIGN.md §5 S-LINK / C06"),
  "C19": ("exploration",
          "deterministic simulation over long hostile/clean traffic histories with a counting allocator (SUT/SIM domain tags) as observation point, measured after every poll",
-         "Seeded exploration of long traffic histories (hundreds to tens of thousands of link frames per run, hostile and clean, incl. abandoned 4096-frame announcements and real 4096-frame packets) under seeded polling schedules; SUT-domain heap bytes are measured after every poll and the largest single SUT allocation during every poll. Oracle: bounded by fresh + 1 KiB + 96 B x announced size between polls, no more than a fresh receiver right after a delivery or reassembly error, no single allocation beyond what a one-byte length can announce unless explained by the packet in flight (judged even for a poll that never returns); never more than 4096 frames taken into one packet (over-long packets using the reserved id bit are generated); USART/serial device read errors injected at framing-aligned positions; nothing left when the receiver is dropped.",
+         "Seeded exploration of long traffic histories (hundreds to tens of thousands of link frames per run, hostile and clean, incl. abandoned 4096-frame announcements and real 4096-frame packets) under seeded polling schedules; SUT-domain heap bytes are measured after every poll and the largest single SUT allocation during every poll. Oracle: bounded by fresh + 4 KiB + 96 B x announced size between polls, no more than a fresh receiver right after a delivery or reassembly error, no single allocation beyond what a one-byte length can announce unless explained by the packet in flight (judged even for a poll that never returns); never more than 4096 frames taken into one packet (over-long packets using the reserved id bit are generated); USART/serial device read errors injected at framing-aligned positions; nothing left when the receiver is dropped.",
          "Trusted: the counting allocator's domain attribution (devices and harness switch to SIM on entry); bounds are deliberately loose in the constant factors (36 B per frame real vs 96 B allowed). Not a proof.",
          "DESIGN.md §5 S-LINK / C19"),
  "C14": ("fault_enumeration",
